@@ -66,3 +66,41 @@ def neutral_run(pid: str, repo: str):
         return dict(variant="ast.unparse round-trip + every local variable renamed", exit=r.returncode, first=first)
     finally:
         shutil.rmtree(d, ignore_errors=True)
+
+
+def seeded_runs(pid: str, repo: str, jobs: int = 8):
+    """independently written breaking changes kept under /verif/seeded/<id>/patch.diff: each must be refuted by the check
+    of the property it targets (applied with `patch` to a scratch copy, never to /repo)"""
+    import json
+    root = os.path.join(VERIF, "seeded")
+    out = []
+    if not os.path.isdir(root):
+        return out
+    for name in sorted(os.listdir(root)):
+        mp = os.path.join(root, name, "meta.json")
+        pp = os.path.join(root, name, "patch.diff")
+        if not (os.path.exists(mp) and os.path.exists(pp)):
+            continue
+        meta = json.load(open(mp))
+        targets = {meta.get("property")} | {x.split()[0] for x in meta.get("detected_by", [])}
+        if pid not in targets:
+            continue
+        d = tempfile.mkdtemp(prefix="pstseed.")
+        try:
+            shutil.copytree(os.path.join(repo, "persim"), os.path.join(d, "persim"), ignore=shutil.ignore_patterns("__pycache__"))
+            pr = subprocess.run(["patch", "-p1", "-s", "-d", d, "-i", pp], capture_output=True, text=True)
+            if pr.returncode != 0:
+                out.append(dict(seed=name, got="patch-does-not-apply", expect="refute"))
+                continue
+            r = subprocess.run([sys.executable, "-m", "pst.check", pid, "--repo", d, "--dry"], cwd=VERIF, capture_output=True,
+                               text=True, timeout=300)
+            rule = None
+            for ln in r.stdout.splitlines():
+                if " rule=" in ln:
+                    rule = ln.split(" rule=")[1].split(":")[0]
+                    break
+            out.append(dict(seed=name, expect="refute", got={0: "silent", 1: "refute"}.get(r.returncode, "error"), rule=rule,
+                            primary=(meta.get("property") == pid)))
+        finally:
+            shutil.rmtree(d, ignore_errors=True)
+    return out
